@@ -141,7 +141,10 @@ theorem step_good (P : ProtoParams) (hP : P.WF) (hm : P.bufMin < P.bufMax) (al :
         · rw [if_neg hfit]
           have hacc : acceptedBytes P s (.recv d) = [] := by
             simp [acceptedBytes, Io.accepts, hfit]
-          simpa [hacc] using hg
+          obtain ⟨hv, hinv, hst, tail, hS, _⟩ := hg
+          rw [hacc]
+          simp only [List.append_nil, delivers]
+          exact ⟨hv, hinv, hst, tail, by simpa using hS, fun h => by cases h⟩
 
 theorem run_good (P : ProtoParams) (hP : P.WF) (hm : P.bufMin < P.bufMax) (al : Nat → Bool)
     (h : List (Bytes × Ev)) (s : Io) (S : Bytes) (fs : List Frame) (hg : Good P s S fs) :
@@ -267,11 +270,11 @@ theorem c01_copy_in_bounds (P : ProtoParams) (d : Bytes) (f : Frame) (rest : Byt
   obtain ⟨_, _, _, _, hds, hlen, _⟩ := parseHead_frame_inv P d f rest h
   exact ⟨by omega, hlen⟩
 
-/-- **C01.4 (drops are reported; what the hypothesis "accepted" excludes)** a segment that does
-    not fit the staging buffer is discarded with an error log and no state change. -/
+/-- **C01.4 (a segment that cannot be stored ends the connection)** a segment that does not fit the
+    staging buffer is reported and followed by the restart: nothing received later is parsed over the hole. -/
 theorem c01_drop_reported (P : ProtoParams) (sc : Bytes) (s : Io) (d : Bytes) (h0 : d.length ≠ 0)
     (hbig : ¬ d.length ≤ P.stage - s.i.staging.length) :
-    Io.recvCb P sc s d = (s, [.log "RECVOVF"]) := by
+    Io.recvCb P sc s d = ({ s with dead := true }, [.log "RECVOVF", .restart]) := by
   unfold Io.recvCb; rw [if_neg h0, if_neg hbig]
 
 /-- the verdict of the grammar on a stream prefix is final: appending bytes to a stream whose head
